@@ -54,7 +54,7 @@ def pat(offset, n):
 
 
 def budget(tier):
-    return 260 if tier == "quick" else 6000
+    return 640 if tier == "quick" else 8000
 
 
 def _gen(g):
